@@ -238,6 +238,16 @@ func runC04(c *Ctx) error {
 	}
 	cases, replayOnly := c.loadCases()
 	for _, cc := range cases {
+		if strings.Contains(string(cc.Input), "\"states\"") {
+			// a case of the sequential stream
+			var hin HistInput
+			must(json.Unmarshal(cc.Input, &hin))
+			ob := runHistory(&hin)
+			if ob.ParseErr == "" && ob.Err == "" {
+				out.Add("corpus:"+cc.Name, &hin, ob, "C04H ("+coqHCase(&hin, ob)+")", false, "")
+			}
+			continue
+		}
 		var in C04Input
 		must(json.Unmarshal(cc.Input, &in))
 		emit("corpus:"+cc.Name, &in)
